@@ -664,8 +664,10 @@ def execute_multi(case):
     if phase == 'stalled':
         return bad('C16/stalled', 'every producer finished and flushed, yet '
                    'no consumer received anything for %gs; %d of %d items '
-                   'received' % (tg.STALL_DEADLINE, len(seen),
-                                          sum(plan)), labels=sorted(labels))
+                   'received (process consumers report only at their end)\n'
+                   'threads of the arena process:\n%s' % (
+                       tg.STALL_DEADLINE, len(seen), sum(plan),
+                       res.get('stacks', '')), labels=sorted(labels))
     if phase != 'done':
         return inconclusive('arena phase %s' % phase, sorted(labels))
 
@@ -747,5 +749,31 @@ def run(ctx):
                 shrink_budget=40)
     if ctx.violations:
         return      # a broken queue makes the multi-party runs hang, not fail
-    ctx.explore('multi', multi_cases(), execute_multi, n=ctx.pick(5, 150),
+
+    def multi(case):
+        out = execute_multi(case)
+        if out.violated:
+            # keep every failing multi-party execution, also one that the
+            # re-execution rule then discards as unconfirmed
+            _keep_failure(ctx, case, out)
+        return out
+
+    ctx.explore('multi', multi_cases(), multi, n=ctx.pick(5, 150),
                 shrink_budget=0, reexecute_confirm=1)
+
+
+def _keep_failure(ctx, case, out):
+    import json
+    from vlib.core import VERIF, canon, case_hash
+    ctx.notes['multi_failing_executions'] = \
+        ctx.notes.get('multi_failing_executions', 0) + 1
+    os.makedirs(os.path.join(VERIF, 'replays'), exist_ok=True)
+    path = os.path.join(VERIF, 'replays', 'C16-execution-%s.json'
+                        % case_hash(case))
+    with open(path, 'w') as f:
+        json.dump({'property': 'C16', 'part': 'multi',
+                   'signature': out.signature, 'detail': out.detail,
+                   'case': json.loads(canon(case)), 'seed': ctx.seed,
+                   'tier': ctx.tier, 'note': 'one failing execution; counts '
+                   'as a violation only if the re-execution fails too'},
+                  f, indent=1, sort_keys=True)
